@@ -2,7 +2,8 @@
 Model of internal/rtpbuffer (rtpbuffer.go, packet_factory.go, retainable_packet.go) and of
 pkg/nack/responder_interceptor.go, transcribed branch by branch from the *fixed* code
 (fix F-04: a late Add outside the window is dropped and released; fix F-05: the pooled
-payload buffer is 1460+2 bytes so the RTX prefix never truncates the payload).
+payload buffer is 1460+2 bytes so the RTX prefix never truncates the payload; fix F-06: `Close`
+sets `closed`, after which NACKs are ignored, and waits for the resend goroutines in flight).
 Core Lean only.
 -/
 import Interceptor.Base.Seq16
@@ -165,10 +166,13 @@ structure Resp where
   rtxNext : Nat                 -- next value of the RTX sequencer
   hold : Bool
   pending : Option Pending
+  closed : Bool                 -- `n.closed`: set by Close, never reset; NACKs are ignored afterwards
+  closeWaiting : Bool           -- a `Close` is blocked in `resends.Wait()` behind the pending resend
 
 def Resp.new (size rtxStart : Nat) : Option Resp :=
   if validSize size then
-    some { size := size, streams := #[], bound := [], rtxNext := rtxStart, hold := false, pending := none }
+    some { size := size, streams := #[], bound := [], rtxNext := rtxStart, hold := false, pending := none,
+           closed := false, closeWaiting := false }
   else none
 
 def lookupBound (bound : List (Nat × Nat)) (ssrc : Nat) : Option Nat :=
@@ -220,9 +224,11 @@ def Resp.unbind (r : Resp) (ssrc : Nat) : Resp :=
   | none => r
   | some w => clearStream { r with bound := r.bound.filter (·.1 ≠ ssrc) } w
 
-/-- `Close`. -/
+/-- `Close`: marks the interceptor closed, unbinds and clears every stream; it then waits for the
+resend goroutines in flight (`closeWaiting` while one is held inside the downstream `Write`). -/
 def Resp.close (r : Resp) : Resp :=
-  r.bound.foldl (fun r e => clearStream r e.2) { r with bound := [] }
+  r.bound.foldl (fun r e => clearStream r e.2)
+    { r with bound := [], closed := true, closeWaiting := r.closeWaiting || r.pending.isSome }
 
 def streamGet (r : Resp) (w seq : Nat) : Option Pkt :=
   match r.streams[w]? with
@@ -245,21 +251,25 @@ def resendHeld (r : Resp) (w : Nat) : List Nat → Option Pending
     | some p => some { w := w, held := p, rest := xs }
     | none => resendHeld r w xs
 
-/-- `resendPackets` for one NACK: (new state, stream index, packets written now). -/
+/-- the reader of `BindRTCPReader` for one NACK followed by `resendPackets`: (new state, packets
+written now as (stream index, packet)). After `Close` no resend is started. -/
 def Resp.nack (r : Resp) (ssrc : Nat) (pairs : List (Nat × Nat)) : Resp × List (Nat × Pkt) :=
-  match lookupBound r.bound ssrc with
-  | none => (r, [])
-  | some w =>
-    if r.hold then ({ r with pending := resendHeld r w (expand pairs) }, [])
-    else (r, (resendAll r w (expand pairs)).map (fun p => (w, p)))
+  if r.closed then (r, [])
+  else
+    match lookupBound r.bound ssrc with
+    | none => (r, [])
+    | some w =>
+      if r.hold then ({ r with pending := resendHeld r w (expand pairs) }, [])
+      else (r, (resendAll r w (expand pairs)).map (fun p => (w, p)))
 
 /-- the harness releases the downstream writer: the blocked `Write` completes with the retained
-packet, the goroutine goes on with the rest of its requests against the *current* buffer. -/
+packet, the goroutine goes on with the rest of its requests against the *current* buffer; a `Close`
+waiting for it returns. -/
 def Resp.resume (r : Resp) : Resp × List (Nat × Pkt) :=
   match r.pending with
-  | none => ({ r with hold := false }, [])
+  | none => ({ r with hold := false, closeWaiting := false }, [])
   | some pd =>
-    ({ r with hold := false, pending := none },
+    ({ r with hold := false, pending := none, closeWaiting := false },
      (pd.w, pd.held) :: (resendAll r pd.w pd.rest).map (fun p => (pd.w, p)))
 
 end Interceptor.RtpBuffer
